@@ -1,3 +1,4 @@
+import RimuProofs.Lemmas.Eqns
 import RimuModel.Cli
 
 /-!
@@ -45,6 +46,15 @@ theorem run_bind {α β} (x : M α) (f : α → M β) (s : Session) :
     (errorCallback msg).run s = .ok ((), if s.callback then { s with log := s.log ++ [msg] } else s) := rfl
 
 @[simp] theorem run_isSafeModeNz (s : Session) : isSafeModeNz.run s = .ok (s.safeMode != 0, s) := rfl
+
+@[simp] theorem run_skipBlockAttributes (s : Session) :
+    skipBlockAttributes.run s = .ok (pyAnd s.safeMode 4 != 0, s) := rfl
+
+@[simp] theorem run_skipMacroDefs (s : Session) :
+    skipMacroDefs.run s = .ok (s.safeMode != 0 && pyAnd s.safeMode 8 == 0, s) := rfl
+
+@[simp] theorem run_macrosGetValue (n : Str) (s : Session) :
+    (macrosGetValue n).run s = .ok ((s.macroDefs.find? (·.name == n)).map (·.value), s) := rfl
 
 @[simp] theorem run_documentInit (s : Session) :
     documentInit.run s = .ok ((), { s with
